@@ -14,6 +14,10 @@ package extgrpc
 //@ method (*withGrpcCode).Unwrap
 //@   props C07 C10 C14
 //@   ensures result == self.cause
+//@ method (*withGrpcCode).SafeFormatError
+//@   props C09
+//@   requires p != nil
+//@   ensures result == self.cause
 
 //@ func WrapWithGrpcCode
 //@   props C10 C07 C20
